@@ -24,11 +24,71 @@ ASSUMPTIONS = [
 FINDING_KEYS = {
     "dynreq": "dyn-setup-requirement-kinds",
     "inv_during_sub": "caller-invariant-checked-during-sub-behaviour",
+    "nested_return": "nested-try-return-does-not-end-behavior",
 }
 
 
+def _tries(stmts, depth=0, enclosing=()):
+    """Yield (try statement, tuple of enclosing try statements) for every try in a block."""
+    for s in stmts:
+        op = s[0]
+        if op == "try":
+            yield s, enclosing
+            yield from _tries(s[1], depth + 1, enclosing + (s,))
+            for _, hb in s[2]:
+                yield from _tries(hb, depth + 1, enclosing + (s,))
+        elif op == "if":
+            yield from _tries(s[2], depth, enclosing)
+            yield from _tries(s[3], depth, enclosing)
+        elif op == "loop":
+            yield from _tries(s[2], depth, enclosing)
+        elif op == "while":
+            yield from _tries(s[1], depth, enclosing)
+
+
+def _has(stmts, ops):
+    for s in stmts:
+        op = s[0]
+        if op in ops:
+            return True
+        if op == "if" and (_has(s[2], ops) or _has(s[3], ops)):
+            return True
+        if op == "loop" and _has(s[2], ops):
+            return True
+        if op == "while" and _has(s[1], ops):
+            return True
+        if op == "try" and (_has(s[1], ops) or any(_has(h, ops) for _, h in s[2])):
+            return True
+    return False
+
+
+def compile_finding(prog, msg):
+    """Call-site + input-predicate matcher for compile-time failures of valid programs."""
+    bodies = [b["body"] for b in prog["behaviors"]] + [s["compose"] for s in prog["scenarios"] if s["compose"]]
+    nested_more_handlers = nested_break = False
+    for body in bodies:
+        for t, enclosing in _tries(body):
+            if enclosing:
+                if any(len(t[2]) > len(e[2]) for e in enclosing):
+                    nested_more_handlers = True
+                if _has(t[1], ("break", "continue")) or any(_has(h, ("break", "continue")) for _, h in t[2]):
+                    nested_break = True
+    if "no binding for nonlocal '_Scenic_interrupt_condition_" in msg and nested_more_handlers:
+        return "nested-try-more-handlers-than-enclosing-does-not-compile"
+    if ("'break' outside loop" in msg or "'continue' not properly in loop" in msg) and nested_break:
+        return "nested-try-break-continue-does-not-compile"
+    return None
+
+
 def prepare():
+    import gc
+
     import scenic  # noqa: F401  (import before forking)
+
+    # sanitize() calls gc.collect() between environments; keep the big import-time heap
+    # out of it
+    gc.collect()
+    gc.freeze()
 
 
 def classify(v):
@@ -43,7 +103,19 @@ def run_dyn(tape, feat, bug_models, raise_guards_choice=False, n_env_max=6):
     g = dyngen.Gen(tape, feat)
     prog = g.program()
     src = dyn.render(prog)
-    scenario = dynrun.compile_prog(src, top=None if prog["flat"] else "Main")
+    dynrun.sanitize()
+    try:
+        scenario = dynrun.compile_prog(src, top=None if prog["flat"] else "Main")
+    except Exception as e:  # noqa: BLE001 - every generated program is valid per the reference
+        msg = f"{type(e).__name__}: {e}"
+        return {
+            "violations": [{"clause": "compile-error",
+                            "detail": {"error": msg[:300], "finding": compile_finding(prog, msg)}}],
+            "digest": hashlib.blake2b((src + msg).encode(), digest_size=8).hexdigest(),
+            "nontrivial": False,
+            "stats": {"programs": 1, "result:compile-error": 1},
+            "sample": {"program": src, "error": msg[:300]},
+        }
     nobj = dyngen.count_objects(prog)
     n_env = tape.intrange(1, n_env_max, "n_env")
     stats = {"programs": 1}
@@ -89,6 +161,17 @@ def run_dyn(tape, feat, bug_models, raise_guards_choice=False, n_env_max=6):
                 "impl": strip(impl),
                 "impl_log": [list(x) for x in dynrun.norm_log(impl["log"])][:200],
             }
+        # isolation between environments: process-history effects are C14's business
+        leaked = bool(getattr(scenario.dynamicScenario, "_isRunning", False))
+        impl.pop("sim", None)
+        impl.pop("world", None)
+        impl.pop("scene", None)
+        w = None
+        bad = dynrun.sanitize()
+        if leaked or bad:
+            stats["probe:state_leak_after_run_recovered"] = stats.get("probe:state_leak_after_run_recovered", 0) + 1
+            dynrun._COMPILED.clear()
+            scenario = dynrun.compile_prog(src, top=None if prog["flat"] else "Main", cache=False)
         if verdict == "diff":
             fkey = FINDING_KEYS.get(finding) if finding else None
             for clause, detail in info:
